@@ -44,7 +44,8 @@ let case (line : string) : string =
     let toks = split_on ' ' hd in
     let al = String.trim al and sy = String.trim sy in
     let allocs = if al = "-" || al = "" then [] else List.init (String.length al) (fun i -> al.[i] = '1') in
-    let syss = if sy = "-" || sy = "" then [] else List.map ans_of (split_on ',' sy) in
+    let syss = if sy = "-" || sy = "" || (match toks with "io_poll" :: _ -> true | _ -> false) then []
+               else List.map ans_of (split_on ',' sy) in
     let w = { w_alloc = allocs; w_sys = syss; w_log = [] } in
     (match toks with
      | ["write2"; n; c; e] -> show_out (uv_write2 (nat_of_int (int_of_string n)) (b c) (b e) l0 w)
@@ -68,6 +69,18 @@ let case (line : string) : string =
      | ["signal_event"] ->
        let (((r, d), _), lg) = uv_signal_event syss [] in
        Printf.sprintf "rc=%s dispatched=%b pts=%s" (res_name r) d (pts lg)
+     | ["io_poll"; m; t] ->
+       (* answers: i<e> | t | e<e> *)
+       let pa tok =
+         let v () = z_of_string (String.sub tok 1 (String.length tok - 1)) in
+         match tok.[0] with 'i' -> PIntr (v ()) | 'e' -> PEvents (v ()) | _ -> PTimeout in
+       let o = if sy = "-" || sy = "" then [] else List.map pa (split_on ',' sy) in
+       let r = io_poll (b m) (z_of_string t) o in
+       Printf.sprintf "P%s calls=%s Q%s end=%s ok=%b" t
+         (String.concat "," (List.rev_map (fun (a, n) -> "w" ^ string_of_z a ^ "@" ^ string_of_z n) r.r_calls))
+         (string_of_z r.r_blocked)
+         (match r.r_end with PeTimeout -> "timeout" | PeEvents -> "events" | PeBreak -> "break" | PeStuck -> "stuck")
+         r.r_ok
      | ["read_step"] ->
        let (r, w') = uv_read_step w in
        Printf.sprintf "rd=%s pts=%s"
